@@ -226,7 +226,7 @@ def main(argv=None):
         'violations': len(violations),
     }
     evdir = os.path.join(VERIF, 'evidence')
-    if os.path.realpath(REPO) != '/repo' or args.unit:
+    if os.path.realpath(REPO) != '/repo' or args.unit or os.environ.get('PYVC_EVIDENCE_SCRATCH'):
         # scratch trees (developer mutation runs) and partial runs never overwrite the evidence of /repo
         evdir = os.path.join(VERIF, 'evidence_scratch')
     os.makedirs(evdir, exist_ok=True)
@@ -253,6 +253,31 @@ def main(argv=None):
             print('vacuous: ' + v)
         return 3
     rc = 0
+    if undecided or incomplete or regress:
+        # The proof is (partly) unavailable on this tree -- e.g. an edit moved a function outside the
+        # executor's subset.  That is 'undecided' (exit 2), never a violation by itself.  As a bounded
+        # stand-in (labelled so, never counted as proved) the native replay oracle of the affected units
+        # is run with its small exhaustive search; a failing input found there IS a violation.
+        seen = set()
+        for r in results:
+            touched = r['incomplete'] or any(o['status'] in (UNDECIDED, UNCHECKED) for o in r['obligations']) \
+                or any(nm.startswith(tuple(r['functions'])) or nm.startswith(r['unit']) for nm, _w in regress)
+            fn = getattr(contracts, 'REPLAYERS', {}).get(r['unit'])
+            if not touched or fn is None or fn in seen:
+                continue
+            seen.add(fn)
+            o = {'name': '%s:bounded-native-search' % r['unit'], 'kind': 'bounded', 'unit': r['unit'],
+                 'src': 'bounded stand-in: the deductive check of this unit is incomplete on this tree; '
+                        'the replay oracle searches small inputs on the real code',
+                 'backend': 'cpython', 'detail': '; '.join(r['incomplete'])[:300], 'model': {}}
+            path = os.path.join(VERIF, 'replays', '%s__%s.py' % (pid, slug(o['name'])))
+            reproduced, out, note = write_and_run_replay(contracts, reg, pid, o, path)
+            if reproduced:
+                print('  bounded native search (proof unavailable for unit %s) found a failing input' % r['unit'])
+                print('VIOLATION property=%s replay=%s' % (pid, os.path.relpath(path, VERIF)))
+                rc = 1
+    if rc == 1:
+        return 1
     for o in undecided:
         print('  undecided: %s (%s)' % (o['name'], o.get('detail', '')))
         rc = 2
